@@ -8,7 +8,9 @@ rsync -a --exclude .git /repo/ $S/clean/; rsync -a $S/clean/ $S/mut/
 ( cd $S/mut && go build ./... ) >/dev/null 2>&1 || { echo "BUILD-FAILED"; exit 2; }
 T=PASS; for i in 1 2 3; do ( cd $S/mut && go test -vet=off -count=1 ./... ) >/dev/null 2>&1 || T=FAIL; done
 CMD=$(grep -v '^\s*$' "$DEMO/CMD.txt" | grep -v '^#' | tail -1)
+SUB=0; echo "$CMD" | grep -q "\./$(basename $DEMO)/" && SUB=1
 for d in clean mut; do
+  [ $SUB = 1 ] && { mkdir -p "$S/$d/$(basename $DEMO)" && cp -r "$DEMO"/. "$S/$d/$(basename $DEMO)/"; continue; }
   find "$DEMO" -maxdepth 3 -type f ! -name CMD.txt | while read f; do rel=${f#$DEMO/}; mkdir -p "$S/$d/$(dirname $rel)"; cp "$f" "$S/$d/$rel"; done
 done
 ( cd $S/mut && timeout 600 bash -c "$CMD" ) >$S/mut.out 2>&1; M=$?
